@@ -1,7 +1,8 @@
 /-
   Live14 — the hypotheses of the no-raise development (`NcCfg`): those of `LiveCfg` without
-  `NoRaise`, plus H2 (no two observations can be admitted by the same block of the telescope) and
-  `s0.halted = false`.
+  `NoRaise`, plus `s0.halted = false`.  F14: H2 (`OneAdmission`: no two observations can be admitted
+  by the same block of the telescope) is no longer one of them; the definition is kept for the
+  theorems that still mention it.
 -/
 import TopsimProofs.Live5
 import TopsimProofs.Live3
@@ -25,7 +26,7 @@ structure NcCfg (env : SimEnv) (s0 : Sys) : Prop where
   hfull : s0.buf.size = [] ∧ s0.buf.hot.cur = s0.buf.hot.total ∧ s0.buf.cold.cur = s0.buf.cold.total
   hct : s0.buf.cold.transfer = none
   h1 : Sys.NoTierCfg s0
-  h2 : Sys.OneAdmission s0
+  -- F14: the field `h2 : Sys.OneAdmission s0` is gone — the repaired admission test makes it unnecessary
   alg : s0.alg = .queue
   stat : s0.staticPlan = false
   topo : ∀ o ∈ s0.obs, IsTopo o.wf
